@@ -17,14 +17,27 @@ def export(M, stochastic, tag="c14"):
 
 
 def check(case):
-    import libsbml
     res = R()
-    sp, stochastic = case["spec"], case["stochastic"]
-    flavour = "stochastic_export" if stochastic else "deterministic_export"
+    sp = case["spec"]
     with specmod.quiet():
         M = specmod.to_model(sp, share_dicts=bool(case.get("share_dicts")))
     if case.get("share_dicts"):
         res.label("shared_parameter_dictionary")
+    _verify(case, M, res, "")
+    if not res.fails and case.get("again_after_value_change") and sp["params"]:
+        # the same model object exported a second time after its named parameters were given new values: the second
+        # document describes the model as it is now
+        with specmod.quiet():
+            M.set_params({p_: 1.5 * float(v_) + 0.25 for p_, v_ in sp["params"].items()})
+        res.label("exported_again_after_value_change")
+        _verify(case, M, res, "second_export_after_value_change")
+    return res
+
+
+def _verify(case, M, res, phase):
+    import libsbml
+    sp, stochastic = case["spec"], case["stochastic"]
+    flavour = "stochastic_export" if stochastic else "deterministic_export"     # (the phase is a detail, not a root cause)
     path = export(M, stochastic)
     try:
         doc = libsbml.readSBML(path)
@@ -86,10 +99,10 @@ def check(case):
             # purely relative: a rate constant of 1e-14 is as good a rate constant as 1 (both sides evaluate the same
             # formula in double precision; they differ by a few ulp of libm pow at most)
             if abs(got - own) > 1e-9 * max(abs(own), abs(got)) + 1e-300:
-                res.fail(("kinetic_law_value", tag, flavour), reaction=j, state=st_, got=got, own_rate=own,
+                res.fail(("kinetic_law_value", tag, flavour), phase=phase or "first_export", reaction=j, state=st_, got=got, own_rate=own,
                          formula=libsbml.formulaToL3String(kl.getMath()), rxn=rx)
                 break
-    res.nontrivial = nt
+    res.nontrivial = res.nontrivial or nt
     return res
 
 
@@ -129,7 +142,8 @@ def cases(draw):
             states.append({s: float(draw(st.one_of(st.sampled_from([0, 1, 2]), st.integers(0, 12)))) for s in sp["species"]})
         else:
             states.append({s: draw(st.one_of(st.sampled_from([0.0, 1.0]), gen.amount(12))) for s in sp["species"]})
-    return {"kind": "export", "spec": sp, "stochastic": stochastic, "states": states, "share_dicts": share}
+    return {"kind": "export", "spec": sp, "stochastic": stochastic, "states": states, "share_dicts": share,
+            "again_after_value_change": draw(st.integers(0, 3)) == 0}
 
 
 def search(ctx):
